@@ -371,16 +371,16 @@ func scStorm(variant int) func(x *vs.Exec) {
 				vs.Fail("setup: %s", r)
 			}
 			a.OnSid = func(p *sw.Peer, sid string) {
-				p.Send(&msg.NatHoleClient{TransactionID: "c-" + sid, ProxyName: "ua.x", Sid: sid, MappedAddrs: []string{"2.2.2.2:2", "2.2.2.2:3"}})
+				p.Send(&msg.NatHoleClient{TransactionID: "c-" + sid, ProxyName: "x", Sid: sid, MappedAddrs: []string{"2.2.2.2:2", "2.2.2.2:3"}})
 			}
 			w.Quiesce()
 			for i, v := range []*sw.Peer{b, c} {
 				i, v := i, v
 				run(func() {
 					ts := w.Now()
-					v.Send(&msg.NatHoleVisitor{TransactionID: fmt.Sprintf("t%d", i), ProxyName: "ua.x", Protocol: "quic", Timestamp: ts, SignKey: util.GetAuthKey("sk", ts), MappedAddrs: []string{"1.1.1.1:1", "1.1.1.1:2"}})
+					v.Send(&msg.NatHoleVisitor{TransactionID: fmt.Sprintf("t%d", i), ProxyName: "x", Protocol: "quic", Timestamp: ts, SignKey: util.GetAuthKey("sk", ts), MappedAddrs: []string{"1.1.1.1:1", "1.1.1.1:2"}})
 					v.Send(&msg.NatHoleReport{Sid: "nosuchsid", Success: true})
-					v.Send(&msg.NatHoleClient{TransactionID: "zz", ProxyName: "ua.x", Sid: "nosuchsid", MappedAddrs: []string{"3.3.3.3:3", "3.3.3.3:3"}})
+					v.Send(&msg.NatHoleClient{TransactionID: "zz", ProxyName: "x", Sid: "nosuchsid", MappedAddrs: []string{"3.3.3.3:3", "3.3.3.3:3"}})
 				})
 			}
 		}
